@@ -672,6 +672,8 @@ class Fn:
         for c in cands:
             if c not in uniq:
                 uniq.append(c)
+        if len(uniq) > 1 and NEVER in uniq:
+            uniq.remove(NEVER)
         if len(uniq) == 1:
             return uniq[0]
         return ("phi", tuple(uniq))
@@ -848,8 +850,13 @@ def _pelem_eq(a, b):
     return a == b
 
 
+NEVER = ("never",)
+
+
 def _apply_proj(e, proj, fn, seen, depth):
     for p in proj:
+        if e == NEVER:
+            return e
         if isinstance(p, str):
             if p == "*":
                 if e[0] == "ref":
@@ -858,6 +865,16 @@ def _apply_proj(e, proj, fn, seen, depth):
                     e = ("deref", e)
             else:
                 e = ("opaque", e)
+        elif e[0] == "phi" and isinstance(p, dict) and ("as" in p or "f" in p) and not any(a[0] == "partial" for a in e[1]) \
+                and any(a[0] == "agg" or (a[0] == "as" and a[1][0] == "agg") for a in e[1]):
+            # a join of values built in place (`Some(x)` on one edge, `None` on the other): project each alternative,
+            # dropping those that were built as another variant than the one read
+            alts = []
+            for a in e[1]:
+                v = _apply_proj(a, [p], fn, seen, depth)
+                if v != NEVER and v not in alts:
+                    alts.append(v)
+            e = NEVER if not alts else alts[0] if len(alts) == 1 else ("phi", tuple(alts))
         elif "f" in p:
             name = p["f"]
             if e[0] == "phi" and any(a[0] == "partial" for a in e[1]):
@@ -895,7 +912,10 @@ def _apply_proj(e, proj, fn, seen, depth):
             else:
                 e = ("field", e, name)
         elif "as" in p:
-            e = ("as", e, p["as"])
+            if e[0] == "agg" and isinstance(e[2], str) and e[2] != p["as"]:
+                e = NEVER       # the downcast of a value built as another variant: this definition cannot be the one read here
+            else:
+                e = ("as", e, p["as"])
         elif "idx" in p:
             e = ("index", e, fn._place_expr({"l": p["idx"], "p": []}, seen, depth - 1))
         elif "ci" in p:
@@ -1057,7 +1077,7 @@ class Program:
         f = self.fn(path)
         cache = self.__dict__.setdefault("_loops", {})
         if path not in cache:
-            cache[path] = desugar_adaptors(self, inline_closure_calls(self, f))
+            cache[path] = desugar_option_calls(self, desugar_adaptors(self, inline_closure_calls(self, f)))
         return cache[path]
 
     def fn_closure_calls(self, path):
@@ -1724,7 +1744,15 @@ def _thread_jumps(blocks, max_new=240, rounds=48):
 
 ITER = "core::iter::traits::iterator::Iterator::"
 LAZY = ("map", "filter_map", "filter", "inspect")
-CONSUMERS = ("collect", "for_each", "fold")
+CONSUMERS = ("collect", "for_each", "fold", "any", "all", "find", "find_map", "position", "nth", "count")
+BY_REF_CONSUMERS = ("any", "all", "find", "find_map", "position", "nth")
+PRED_CONSUMERS = ("for_each", "any", "all", "find", "find_map", "position")
+#   base.any(p)        ==   loop { match base.next() { None => break false, Some(x) => if p(x) { break true } } }      (all: dually)
+#   base.find(p)       ==   loop { match base.next() { None => break None, Some(x) => if p(&x) { break Some(x) } } }
+#   base.find_map(f)   ==   loop { match base.next() { None => break None, Some(x) => if let Some(y) = f(x) { break Some(y) } } }
+#   base.position(p)   ==   let mut i = 0; loop { match base.next() { None => break None, Some(x) => if p(x) { break Some(i) } else { i += 1 } } }
+#   base.nth(n)        ==   let mut k = n; loop { match base.next() { None => break None, Some(x) => if k == 0 { break Some(x) } else { k -= 1 } } }
+#   base.count()       ==   let mut c = 0; loop { match base.next() { None => break c, Some(_) => c += 1 } }
 
 
 def desugar_adaptors(prog, fn):
@@ -1743,6 +1771,12 @@ def desugar_adaptors(prog, fn):
 
     def assign(l, rv, at=None):
         return {"k": "assign", "lhs": {"l": l, "p": []}, "rv": rv, "at": at}
+
+    def opt_some(op):
+        return {"k": "agg", "agg": "adt", "adt": "core::option::Option", "adt_local": False, "variant": "Some", "field_names": ["0"], "fields": [op]}
+
+    def opt_none():
+        return {"k": "agg", "agg": "adt", "adt": "core::option::Option", "adt_local": False, "variant": "None", "field_names": [], "fields": []}
 
     def single_def_call(l):
         hits = [b for b in blocks if not b.get("cleanup") and b["term"]["k"] == "call" and b["term"]["dest"]["l"] == l and not b["term"]["dest"]["p"]]
@@ -1804,6 +1838,20 @@ def desugar_adaptors(prog, fn):
         cur = t["args"][0]
         chain_blocks = []
         ok = True
+        if kind in BY_REF_CONSUMERS:
+            # these take `&mut self`: the receiver is a borrow of the local holding the adaptor chain
+            pl0 = cur.get("copy") or cur.get("move")
+            rd = [st for b in blocks if not b.get("cleanup") for st in b["stmts"] if st["k"] == "assign" and pl0 and st["lhs"]["l"] == pl0["l"] and not st["lhs"]["p"]] if pl0 and not pl0["p"] else []
+            tc = [b for b in blocks if not b.get("cleanup") and b["term"]["k"] == "call" and pl0 and b["term"]["dest"]["l"] == pl0["l"]]
+            if len(rd) == 1 and not tc and rd[0]["rv"]["k"] == "ref" and rd[0]["rv"].get("mut") and not rd[0]["rv"]["place"]["p"]:
+                owner = rd[0]["rv"]["place"]["l"]
+                # the iterator must not be used again after the call (the loop model consumes it)
+                uses = sum(1 for b in blocks if not b.get("cleanup") for pl_ in _block_places(b) if pl_["l"] == owner) - sum(1 for b in blocks if not b.get("cleanup") and b["term"]["k"] == "drop" and b["term"]["place"]["l"] == owner)
+                if uses > 2:
+                    continue
+                cur = {"move": {"l": owner, "p": []}}
+            else:
+                continue
         while True:
             pl = cur.get("copy") or cur.get("move")
             if pl is None or pl["p"]:
@@ -1829,13 +1877,13 @@ def desugar_adaptors(prog, fn):
         if base is None or base["p"]:
             continue
         cons_callable = None
-        if kind == "for_each":
+        if kind in PRED_CONSUMERS:
             cons_callable = callable_of(t["args"][1])
         elif kind == "fold":
             cons_callable = callable_of(t["args"][2])
-        if kind in ("for_each", "fold") and cons_callable is None:
+        if kind in PRED_CONSUMERS + ("fold",) and cons_callable is None:
             continue
-        if kind == "collect" and not stages:
+        if kind in ("collect", "nth", "count") and not stages:
             continue
         at = t.get("at")
         dest = t["dest"]["l"]
@@ -1851,6 +1899,15 @@ def desugar_adaptors(prog, fn):
             exit_stmts.append(assign(dest, {"k": "use", "a": {"move": {"l": acc, "p": []}}}, at))
         elif kind == "for_each":
             exit_stmts.append(assign(dest, {"k": "use", "a": {"const": {"kind": "zst", "ty": "()"}}}, at))
+        elif kind in ("any", "all"):
+            exit_stmts.append(assign(dest, {"k": "use", "a": {"const": {"kind": "bool", "value": kind == "all", "ty": "bool"}}}, at))
+        elif kind in ("find", "find_map", "position", "nth"):
+            exit_stmts.append(assign(dest, opt_none(), at))
+        elif kind == "count":
+            acc = new_local("usize")
+            exit_stmts.append(assign(dest, {"k": "use", "a": {"move": {"l": acc, "p": []}}}, at))
+        if kind in ("position", "nth"):
+            acc = new_local("usize")
         X = new_block(exit_stmts, {"k": "goto", "target": t["target"], "at": at})
         H = new_block([assign(rb, {"k": "ref", "mut": True, "place": {"l": base["l"], "p": []}}, at)], None)
         H2 = new_block([assign(d, {"k": "discr", "place": {"l": it, "p": []}, "ty": "core::option::Option<?>", "adt": "core::option::Option", "variants": {"0": "None", "1": "Some"}}, at)], None)
@@ -1877,10 +1934,45 @@ def desugar_adaptors(prog, fn):
         elif kind == "for_each":
             unit = new_local("()")
             tail_entry = emit_call(cons_callable, [xn], unit, H, at)
-        else:
+        elif kind == "fold":
             tmp = new_local()
             back = new_block([assign(acc, {"k": "use", "a": {"move": {"l": tmp, "p": []}}}, at)], {"k": "goto", "target": H, "at": at})
             tail_entry = emit_call(cons_callable, [acc, xn], tmp, back, at)
+        elif kind in ("any", "all"):
+            r = new_local("bool")
+            hit = new_block([assign(dest, {"k": "use", "a": {"const": {"kind": "bool", "value": kind == "any", "ty": "bool"}}}, at)], {"k": "goto", "target": t["target"], "at": at})
+            sw = new_block([], {"k": "switch", "discr": {"move": {"l": r, "p": []}}, "discr_ty": "bool",
+                                "arms": [{"value": 0, "target": H if kind == "any" else hit}], "otherwise": hit if kind == "any" else H, "at": at})
+            tail_entry = emit_call(cons_callable, [xn], r, sw, at)
+        elif kind == "find":
+            r, rx = new_local("bool"), new_local("&?")
+            hit = new_block([assign(dest, opt_some({"move": {"l": xn, "p": []}}), at)], {"k": "goto", "target": t["target"], "at": at})
+            sw = new_block([], {"k": "switch", "discr": {"move": {"l": r, "p": []}}, "discr_ty": "bool", "arms": [{"value": 0, "target": H}], "otherwise": hit, "at": at})
+            ce = emit_call(cons_callable, [rx], r, sw, at)
+            tail_entry = new_block([assign(rx, {"k": "ref", "mut": False, "place": {"l": xn, "p": []}}, at)], {"k": "goto", "target": ce, "at": at})
+        elif kind == "find_map":
+            r, dd = new_local("core::option::Option<?>"), new_local("isize")
+            hit = new_block([assign(dest, {"k": "use", "a": {"move": {"l": r, "p": []}}}, at)], {"k": "goto", "target": t["target"], "at": at})
+            sw = new_block([assign(dd, {"k": "discr", "place": {"l": r, "p": []}, "ty": "core::option::Option<?>", "adt": "core::option::Option", "variants": {"0": "None", "1": "Some"}}, at)],
+                           {"k": "switch", "discr": {"move": {"l": dd, "p": []}}, "discr_ty": "isize", "arms": [{"value": 0, "target": H}, {"value": 1, "target": hit}], "otherwise": unreach, "at": at})
+            tail_entry = emit_call(cons_callable, [xn], r, sw, at)
+        elif kind == "position":
+            r = new_local("bool")
+            hit = new_block([assign(dest, opt_some({"copy": {"l": acc, "p": []}}), at)], {"k": "goto", "target": t["target"], "at": at})
+            step = new_block([assign(acc, {"k": "bin", "op": "Add", "a": {"copy": {"l": acc, "p": []}}, "b": {"const": {"kind": "int", "value": 1, "ty": "usize"}}, "ty": "usize"}, at)],
+                             {"k": "goto", "target": H, "at": at})
+            sw = new_block([], {"k": "switch", "discr": {"move": {"l": r, "p": []}}, "discr_ty": "bool", "arms": [{"value": 0, "target": step}], "otherwise": hit, "at": at})
+            tail_entry = emit_call(cons_callable, [xn], r, sw, at)
+        elif kind == "nth":
+            z = new_local("bool")
+            hit = new_block([assign(dest, opt_some({"move": {"l": xn, "p": []}}), at)], {"k": "goto", "target": t["target"], "at": at})
+            step = new_block([assign(acc, {"k": "bin", "op": "Sub", "a": {"copy": {"l": acc, "p": []}}, "b": {"const": {"kind": "int", "value": 1, "ty": "usize"}}, "ty": "usize"}, at)],
+                             {"k": "goto", "target": H, "at": at})
+            tail_entry = new_block([assign(z, {"k": "bin", "op": "Eq", "a": {"copy": {"l": acc, "p": []}}, "b": {"const": {"kind": "int", "value": 0, "ty": "usize"}}, "ty": "usize"}, at)],
+                                   {"k": "switch", "discr": {"move": {"l": z, "p": []}}, "discr_ty": "bool", "arms": [{"value": 0, "target": step}], "otherwise": hit, "at": at})
+        elif kind == "count":
+            tail_entry = new_block([assign(acc, {"k": "bin", "op": "Add", "a": {"copy": {"l": acc, "p": []}}, "b": {"const": {"kind": "int", "value": 1, "ty": "usize"}}, "ty": "usize"}, at)],
+                                   {"k": "goto", "target": H, "at": at})
         nxt = tail_entry
         for k in range(len(stages) - 1, -1, -1):
             skind, ca, sblock = stages[k]
@@ -1909,8 +2001,10 @@ def desugar_adaptors(prog, fn):
         # --- entry: initialise, then enter the loop; the adaptor calls themselves disappear
         pre = list(blocks[bi]["stmts"])
         nb = dict(blocks[bi])
-        if kind == "fold":
+        if kind in ("fold", "nth"):
             pre.append(assign(acc, {"k": "use", "a": t["args"][1]}, at))
+        elif kind in ("position", "count"):
+            pre.append(assign(acc, {"k": "use", "a": {"const": {"kind": "int", "value": 0, "ty": "usize"}}}, at))
         nb["stmts"] = pre
         if kind == "collect":
             vb = new_block([], {"k": "call", "decl": "alloc::vec::Vec::<T>::new", "decl_local": False, "self_adt": "alloc::vec::Vec", "dispatch": "static",
@@ -1927,12 +2021,92 @@ def desugar_adaptors(prog, fn):
         done.append("%s@bb%d[%s]" % (kind, bi, ",".join(s_[0] for s_ in stages)))
     if not done:
         return fn
+    _thread_jumps(blocks)       # `match it.find(..) { Some(x) => .., None => .. }`: each loop exit goes to its own arm
     d = {k: v for k, v in fn.d.items() if k not in ("blocks", "locals")}
     d["locals"] = locals_
     d["blocks"] = blocks
     d["arg_count"] = fn.nargs
     nf = Fn(prog, fn.path, d)
     nf.desugared = done
+    nf.inlined = list(getattr(fn, "inlined", []) or [])
+    return nf
+
+
+# --------------------------------------------------------------------------
+# Option combinators as the matches they denote
+#
+#   o.unwrap_or(d)    ==   match o { Some(v) => v, None => d }
+#   o.is_some()       ==   match o { Some(_) => true, None => false }          (is_none dually)
+#
+# (the value-taking combinators only: the closure-taking ones keep their call form)
+
+OPT = "core::option::Option::<T>::"
+
+
+def desugar_option_calls(prog, fn):
+    blocks = [_copy.copy(b) for b in fn.blocks]
+    locals_ = list(fn.locals)
+    done = []
+
+    def new_local(ty="?"):
+        locals_.append(ty)
+        return len(locals_) - 1
+
+    def new_block(stmts, term):
+        b = {"id": len(blocks), "stmts": stmts, "term": term, "synthetic": True}
+        blocks.append(b)
+        return b["id"]
+
+    def assign(l, rv, at=None):
+        return {"k": "assign", "lhs": {"l": l, "p": []}, "rv": rv, "at": at}
+
+    for bi in range(len(fn.blocks)):
+        t = blocks[bi]["term"]
+        if blocks[bi].get("cleanup") or t["k"] != "call" or not (t.get("decl") or "").startswith(OPT) or t.get("target") is None or t["dest"]["p"]:
+            continue
+        kind = t["decl"][len(OPT):]
+        at = t.get("at")
+        dest = t["dest"]["l"]
+        if kind == "unwrap_or" and len(t["args"]) == 2:
+            o = t["args"][0].get("move") or t["args"][0].get("copy")
+            if o is None:
+                continue
+            place = o
+        elif kind in ("is_some", "is_none") and len(t["args"]) == 1:
+            r = t["args"][0].get("move") or t["args"][0].get("copy")
+            if r is None or r["p"]:
+                continue
+            rd = [st for b in blocks if not b.get("cleanup") for st in b["stmts"] if st["k"] == "assign" and st["lhs"]["l"] == r["l"] and not st["lhs"]["p"]]
+            rc = [b for b in blocks if not b.get("cleanup") and b["term"]["k"] == "call" and b["term"]["dest"]["l"] == r["l"]]
+            if len(rd) != 1 or rc or rd[0]["rv"]["k"] != "ref":
+                continue
+            place = rd[0]["rv"]["place"]
+        else:
+            continue
+        dd = new_local("isize")
+        unreach = new_block([], {"k": "unreachable", "at": at})
+        if kind == "unwrap_or":
+            some = new_block([assign(dest, {"k": "use", "a": {"move": {"l": place["l"], "p": list(place["p"]) + [{"as": "Some"}, {"f": "0", "adt": "core::option::Option"}]}}}, at)],
+                             {"k": "goto", "target": t["target"], "at": at})
+            none = new_block([assign(dest, {"k": "use", "a": t["args"][1]}, at)], {"k": "goto", "target": t["target"], "at": at})
+        else:
+            some = new_block([assign(dest, {"k": "use", "a": {"const": {"kind": "bool", "value": kind == "is_some", "ty": "bool"}}}, at)], {"k": "goto", "target": t["target"], "at": at})
+            none = new_block([assign(dest, {"k": "use", "a": {"const": {"kind": "bool", "value": kind == "is_none", "ty": "bool"}}}, at)], {"k": "goto", "target": t["target"], "at": at})
+        sw = new_block([assign(dd, {"k": "discr", "place": place, "ty": "core::option::Option<?>", "adt": "core::option::Option", "variants": {"0": "None", "1": "Some"}}, at)],
+                       {"k": "switch", "discr": {"move": {"l": dd, "p": []}}, "discr_ty": "isize", "arms": [{"value": 0, "target": none}, {"value": 1, "target": some}], "otherwise": unreach, "at": at})
+        nb = dict(blocks[bi])
+        nb["term"] = {"k": "goto", "target": sw, "at": at}
+        blocks[bi] = nb
+        done.append("%s@bb%d" % (kind, bi))
+    if not done:
+        return fn
+    _thread_jumps(blocks)
+    d = {k: v for k, v in fn.d.items() if k not in ("blocks", "locals")}
+    d["locals"] = locals_
+    d["blocks"] = blocks
+    d["arg_count"] = fn.nargs
+    nf = Fn(prog, fn.path, d)
+    nf.desugared = list(getattr(fn, "desugared", []) or []) + done
     nf.inlined = list(getattr(fn, "inlined", []) or [])
     return nf
 
